@@ -802,6 +802,15 @@ theorem castDiv_is_division (n : List (Int × K)) (c : K) (hc : c ≠ 0) :
   rw [coefLast_eq_lastD, coefLast_eq_lastD, h]
   simp [div_eq_mul_inv]
 
+/-- **C04.14e'** (`castDiv_response`): … and dividing every numerator coefficient by `c` divides the
+response by `c` (the initial state divided as well — in particular the zero-state response): the
+filter `filt / c` of the documentation. -/
+theorem castDiv_response (b as : List K) (a0 c : K) (mem xs : List K) (hmem : mem.length = as.length) :
+    evalIR (compile (b.map (· / c)) (a0 :: as) 0) (mem.map (· / c)) 0 xs
+      = (evalIR (compile b (a0 :: as) 0) mem 0 xs).map (· / c) := by
+  rw [filter_eq_spec_zero _ _ _ _ _ (by simpa using hmem), filter_eq_spec_zero _ _ _ _ _ hmem]
+  exact fspec_scale b as a0 c xs mem []
+
 /-- **C04.14f** (`err_name_injective`): the two exceptions travel under different names. -/
 theorem err_name_injective (e e' : Err) (h : e.name = e'.name) : e = e' := by
   cases e <;> cases e' <;> first | rfl | (simp [Err.name] at h)
@@ -937,6 +946,8 @@ example : (CoefArg.list [(3 : Rat), 0, 5]).coef 2 = 5 ∧ (CoefArg.number (7 : R
   decide +kernel
 example : castDiv [((0 : Int), (6 : Rat)), (1, 3)] 3 = .ok [(0, 2), (1, 1)] := by decide +kernel
 example := castDiv_is_division [((0 : Int), (6 : ℚ)), (1, 3)] 3 (by norm_num)
+example : evalIR (compile [2, 1] [1, -1] (0 : Rat)) [1] 0 [3, 6] = (evalIR (compile [6, 3] [1, -1] (0 : Rat)) [3] 0 [3, 6]).map (· / 3) := by
+  decide +kernel
 /-- every spelling of a gain other than ±1: 3, −3, 1/2, i — the generated gain is `Gain.div` of it -/
 example := gain_is_division [(1 : ℚ)] [2] 3 0 (by norm_num) (by norm_num) (by simp)
 example := gain_is_division [(1 : ℚ)] [2] (-3) 0 (by norm_num) (by norm_num) (by simp)
